@@ -24,17 +24,17 @@ import (
 
 // ---- ordered JSON ----
 
-type jnode struct {
+type gsNode struct {
 	kind byte // 'z' null, 'b' bool, 'n' number, 's' string, 'a' array, 'o' object
 	b    bool
 	num  string
 	str  string
-	arr  []*jnode
+	arr  []*gsNode
 	keys []string
-	vals []*jnode
+	vals []*gsNode
 }
 
-func (n *jnode) get(k string) *jnode {
+func (n *gsNode) get(k string) *gsNode {
 	for i, x := range n.keys {
 		if x == k {
 			return n.vals[i]
@@ -43,10 +43,10 @@ func (n *jnode) get(k string) *jnode {
 	return nil
 }
 
-func parseOrderedJSON(data []byte) (*jnode, error) {
+func parseOrderedJSON(data []byte) (*gsNode, error) {
 	dec := json.NewDecoder(bytes.NewReader(data))
 	dec.UseNumber()
-	n, err := parseNode(dec)
+	n, err := gsParseNode(dec)
 	if err != nil {
 		return nil, err
 	}
@@ -56,26 +56,26 @@ func parseOrderedJSON(data []byte) (*jnode, error) {
 	return n, nil
 }
 
-func parseNode(dec *json.Decoder) (*jnode, error) {
+func gsParseNode(dec *json.Decoder) (*gsNode, error) {
 	t, err := dec.Token()
 	if err != nil {
 		return nil, err
 	}
 	switch v := t.(type) {
 	case nil:
-		return &jnode{kind: 'z'}, nil
+		return &gsNode{kind: 'z'}, nil
 	case bool:
-		return &jnode{kind: 'b', b: v}, nil
+		return &gsNode{kind: 'b', b: v}, nil
 	case json.Number:
-		return &jnode{kind: 'n', num: string(v)}, nil
+		return &gsNode{kind: 'n', num: string(v)}, nil
 	case string:
-		return &jnode{kind: 's', str: v}, nil
+		return &gsNode{kind: 's', str: v}, nil
 	case json.Delim:
 		switch v {
 		case '[':
-			n := &jnode{kind: 'a'}
+			n := &gsNode{kind: 'a'}
 			for dec.More() {
-				c, err := parseNode(dec)
+				c, err := gsParseNode(dec)
 				if err != nil {
 					return nil, err
 				}
@@ -86,7 +86,7 @@ func parseNode(dec *json.Decoder) (*jnode, error) {
 			}
 			return n, nil
 		case '{':
-			n := &jnode{kind: 'o'}
+			n := &gsNode{kind: 'o'}
 			for dec.More() {
 				kt, err := dec.Token()
 				if err != nil {
@@ -101,7 +101,7 @@ func parseNode(dec *json.Decoder) (*jnode, error) {
 						return nil, fmt.Errorf("duplicate member %q", k)
 					}
 				}
-				c, err := parseNode(dec)
+				c, err := gsParseNode(dec)
 				if err != nil {
 					return nil, err
 				}
@@ -144,9 +144,9 @@ func decimalOf(s string) (string, string, error) {
 
 // ---- Coq term printing ----
 
-// coqBytes prints a byte string as a term of type bytes. Printable ASCII goes through bs "...";
+// gsCoqBytes prints a byte string as a term of type bytes. Printable ASCII goes through bs "...";
 // anything else as an explicit byte list.
-func coqBytes(s string) string {
+func gsCoqBytes(s string) string {
 	plain := true
 	for i := 0; i < len(s); i++ {
 		c := s[i]
@@ -177,7 +177,7 @@ func coqZ(s string) string {
 	return s
 }
 
-func coqJSON(sb *strings.Builder, n *jnode) error {
+func coqJSON(sb *strings.Builder, n *gsNode) error {
 	switch n.kind {
 	case 'z':
 		sb.WriteString("JNull")
@@ -194,7 +194,7 @@ func coqJSON(sb *strings.Builder, n *jnode) error {
 		}
 		fmt.Fprintf(sb, "(JNum %s%%Z %s%%Z)", coqZ(m), coqZ(e))
 	case 's':
-		sb.WriteString("(JStr " + coqBytes(n.str) + ")")
+		sb.WriteString("(JStr " + gsCoqBytes(n.str) + ")")
 	case 'a':
 		sb.WriteString("(JArr [")
 		for i, c := range n.arr {
@@ -212,7 +212,7 @@ func coqJSON(sb *strings.Builder, n *jnode) error {
 			if i > 0 {
 				sb.WriteString(";\n ")
 			}
-			sb.WriteString("(" + coqBytes(k) + ", ")
+			sb.WriteString("(" + gsCoqBytes(k) + ", ")
 			if err := coqJSON(sb, n.vals[i]); err != nil {
 				return err
 			}
@@ -456,7 +456,7 @@ func (p *reParser) class() (string, error) {
 	}
 	t := "(RSet false " + coqRanges(rs) + ")"
 	for _, m := range multi {
-		t = "(RAlt " + t + " (rlit " + coqBytes(m) + "))"
+		t = "(RAlt " + t + " (rlit " + gsCoqBytes(m) + "))"
 	}
 	return t, nil
 }
@@ -500,7 +500,7 @@ func (p *reParser) atom() (string, error) {
 		for !p.eof() && p.peek()&0xC0 == 0x80 {
 			p.pos++
 		}
-		return "(rlit " + coqBytes(p.s[st:p.pos]) + ")", nil
+		return "(rlit " + gsCoqBytes(p.s[st:p.pos]) + ")", nil
 	}
 	if c < 32 || c == 127 {
 		return "", p.fail("control character")
@@ -539,7 +539,7 @@ func parsePattern(src string) (string, error) {
 	if topAlt && (start || end) {
 		return "", fmt.Errorf("pattern %q: anchors combined with top-level alternation are not modelled", src)
 	}
-	return fmt.Sprintf("(mkPattern %s %v %v %s)", coqBytes(src), start, end, t), nil
+	return fmt.Sprintf("(mkPattern %s %v %v %s)", gsCoqBytes(src), start, end, t), nil
 }
 
 // ---- schema files -> Schema.schema ----
@@ -578,7 +578,7 @@ func (g *schemaGen) pattern(src string) (string, error) {
 // lenient: a keyword whose value has the wrong JSON type is translated as KMalformed (the
 // well-formedness theorem over shipped_schema_json is what reports it); a keyword outside the
 // modelled set is an error.
-func (g *schemaGen) schema(n *jnode, where string, root bool) (string, error) {
+func (g *schemaGen) schema(n *gsNode, where string, root bool) (string, error) {
 	if n.kind == 'b' {
 		if n.b {
 			return "(SBool true)", nil
@@ -592,7 +592,7 @@ func (g *schemaGen) schema(n *jnode, where string, root bool) (string, error) {
 	for i, k := range n.keys {
 		v := n.vals[i]
 		at := where + "/" + k
-		malformed := func() { kws = append(kws, "KMalformed "+coqBytes(k)) }
+		malformed := func() { kws = append(kws, "KMalformed "+gsCoqBytes(k)) }
 		switch k {
 		case "type":
 			ts := []string{}
@@ -625,7 +625,7 @@ func (g *schemaGen) schema(n *jnode, where string, root bool) (string, error) {
 				malformed()
 				continue
 			}
-			kws = append(kws, "KRef "+coqBytes(v.str))
+			kws = append(kws, "KRef "+gsCoqBytes(v.str))
 		case "$id":
 			if !root {
 				return "", fmt.Errorf("%s: %s: $id below the document root is not modelled", g.file, at)
@@ -634,7 +634,7 @@ func (g *schemaGen) schema(n *jnode, where string, root bool) (string, error) {
 				malformed()
 				continue
 			}
-			kws = append(kws, "KId "+coqBytes(v.str))
+			kws = append(kws, "KId "+gsCoqBytes(v.str))
 		case "$defs":
 			if !root {
 				return "", fmt.Errorf("%s: %s: $defs below the document root is not modelled", g.file, at)
@@ -654,7 +654,7 @@ func (g *schemaGen) schema(n *jnode, where string, root bool) (string, error) {
 				if err != nil {
 					return "", err
 				}
-				ps = append(ps, "("+coqBytes(pk)+", "+s+")")
+				ps = append(ps, "("+gsCoqBytes(pk)+", "+s+")")
 			}
 			name := "KProperties"
 			if k == "$defs" {
@@ -719,7 +719,7 @@ func (g *schemaGen) schema(n *jnode, where string, root bool) (string, error) {
 				if x.kind != 's' {
 					ok = false
 				}
-				names = append(names, coqBytes(x.str))
+				names = append(names, gsCoqBytes(x.str))
 			}
 			if !ok {
 				malformed()
@@ -767,7 +767,7 @@ func (g *schemaGen) schema(n *jnode, where string, root bool) (string, error) {
 			case "uuid":
 				kws = append(kws, "KFormat FUuid")
 			case "uri":
-				kws = append(kws, "KFormat (FAnnot "+coqBytes(v.str)+")")
+				kws = append(kws, "KFormat (FAnnot "+gsCoqBytes(v.str)+")")
 			default:
 				return "", fmt.Errorf("%s: %s: format %q is not modelled", g.file, at, v.str)
 			}
@@ -789,7 +789,7 @@ func (g *schemaGen) schema(n *jnode, where string, root bool) (string, error) {
 			if !annotationKeywords[k] {
 				return "", fmt.Errorf("%s: %s: keyword %q is outside the modelled subset of JSON Schema", g.file, at, k)
 			}
-			kws = append(kws, "KAnnot "+coqBytes(k))
+			kws = append(kws, "KAnnot "+gsCoqBytes(k))
 		}
 	}
 	return "(SKw [" + strings.Join(kws, ";\n ") + "])", nil
@@ -830,7 +830,7 @@ func coqIdent(path string) string {
 	return sb.String()
 }
 
-const genHeader = `(* GENERATED by harness/gen_schemas.go from data/schemas of the repository; do not edit. *)
+const gsGenHeader = `(* GENERATED by harness/gen_schemas.go from data/schemas of the repository; do not edit. *)
 From Coq Require Import List ZArith NArith Strings.Byte String.
 From Verif Require Import Base.Wire Schema.Regex Schema.Schema.
 Import ListNotations.
@@ -843,7 +843,7 @@ func genSchemasJSON(repo string) (string, error) {
 		return "", err
 	}
 	var sb strings.Builder
-	sb.WriteString(genHeader)
+	sb.WriteString(gsGenHeader)
 	for _, f := range files {
 		data, err := os.ReadFile(filepath.Join(repo, "data", "schemas", f))
 		if err != nil {
@@ -864,7 +864,7 @@ func genSchemasJSON(repo string) (string, error) {
 		if i > 0 {
 			sb.WriteString(";\n")
 		}
-		sb.WriteString(" (" + coqBytes(f) + ", json_" + coqIdent(f) + ")")
+		sb.WriteString(" (" + gsCoqBytes(f) + ", json_" + coqIdent(f) + ")")
 	}
 	sb.WriteString("].\n")
 	return sb.String(), nil
@@ -891,11 +891,11 @@ func genSchemas(repo string) (string, error) {
 		if err != nil {
 			return "", err
 		}
-		body.WriteString("Definition path_" + coqIdent(f) + " : bytes := Eval vm_compute in " + coqBytes(f) + ".\n")
+		body.WriteString("Definition path_" + coqIdent(f) + " : bytes := Eval vm_compute in " + gsCoqBytes(f) + ".\n")
 		body.WriteString("Definition schema_" + coqIdent(f) + " : schema := Eval vm_compute in\n " + s + ".\n")
 	}
 	var sb strings.Builder
-	sb.WriteString(genHeader)
+	sb.WriteString(gsGenHeader)
 	for i, src := range g.patOrder {
 		fmt.Fprintf(&sb, "Definition pat_%d : pattern := Eval vm_compute in %s.\n", i+1, g.patDefs[src])
 	}
@@ -918,9 +918,9 @@ func genSchemas(repo string) (string, error) {
 	sb.WriteString("].\n")
 	// the Go-side leaf rules, as the linked packages define them now
 	sb.WriteString("(* leaf rules of the implementation (cbc.KeyPattern, cbc.CodePattern and the length limits) *)\n")
-	fmt.Fprintf(&sb, "Definition go_key_pattern : bytes := Eval vm_compute in %s.\n", coqBytes(cbc.KeyPattern))
+	fmt.Fprintf(&sb, "Definition go_key_pattern : bytes := Eval vm_compute in %s.\n", gsCoqBytes(cbc.KeyPattern))
 	fmt.Fprintf(&sb, "Definition go_key_min_length : Z := %d%%Z.\nDefinition go_key_max_length : Z := %d%%Z.\n", cbc.KeyMinLength, cbc.KeyMaxLength)
-	fmt.Fprintf(&sb, "Definition go_code_pattern : bytes := Eval vm_compute in %s.\n", coqBytes(cbc.CodePattern))
+	fmt.Fprintf(&sb, "Definition go_code_pattern : bytes := Eval vm_compute in %s.\n", gsCoqBytes(cbc.CodePattern))
 	fmt.Fprintf(&sb, "Definition go_code_min_length : Z := %d%%Z.\nDefinition go_code_max_length : Z := %d%%Z.\n", cbc.CodeMinLength, cbc.CodeMaxLength)
 	return sb.String(), nil
 }
